@@ -55,6 +55,13 @@ def _dispersive2(W, lt):
             arc = _si.quad(lambda t: _np.sqrt(1 + (2 * float(a) * t + float(b)) ** 2), 0, x)[0]
             if abs(y - (float(a) * x * x + float(b) * x)) > 1e-9 * (1 + abs(y)) or abs(arc - dist) > 1e-6 * (1 + abs(dist)):
                 return False
+            # a straight trace with a second-order dispersion polynomial: still at the arc length that polynomial maps to the wavelength
+            e2 = 0.05 * float(d1)
+            mixed = lt.DispersiveTilt(trace=[float(b), 0.0], dispersion=[e2, float(d1), float(d0)])
+            xm, ym = (float(_np.ravel(v)[0]) for v in mixed.shift(wavelength=lam, xs=0.0, ys=0.0))
+            arc_m = xm * _np.sqrt(1 + float(b) ** 2)
+            if abs(ym - float(b) * xm) > 1e-9 * (1 + abs(ym)) or abs(_np.polyval([e2, float(d1), float(d0)], arc_m) - lam) > 1e-6 * (1 + abs(lam)):
+                return False
             # a straight trace written with a leading zero coefficient is the same straight trace
             pad = lt.DispersiveTilt(trace=[0.0, float(b), 0.0], dispersion=[float(d1), float(d0)])
             ref = lt.DispersiveTilt(trace=[float(b), 0.0], dispersion=[float(d1), float(d0)])
@@ -141,6 +148,10 @@ def cfg_repr(tier, seed):
         if rep in ('segments', 'wtilt-segments-tilt') and n[0] * n[1] < 2:
             rep = 'tilt-plane'
         out.append({'n': list(n), 'shape': S, 'prop': P, 'os': os, 'k': k, 'rep': rep, 'scales': rng.choice(['axis', 'axis', 'scalar'])})
+        if rng.random() < 0.3 and S[0] * os * S[1] * os >= 2:
+            # an output mask (rectangle of the oversampled output) on top of the carried tilt: the displaced window may cut through it
+            r0, c0 = rng.randrange(S[0] * os), rng.randrange(S[1] * os)
+            out[-1]['omask'] = [r0, rng.randrange(r0, S[0] * os), c0, rng.randrange(c0, S[1] * os)]
     out.append({'n': [2, 2], 'shape': [2, 2], 'prop': [2, 2], 'os': 1, 'k': [0, 0], 'rep': 'tilt-plane', 'scales': 'axis'})
     out.append({'n': [2, 2], 'shape': [2, 3], 'prop': [2, 3], 'os': 2, 'k': [1, -2], 'rep': 'tilt-plane', 'scales': 'axis'})
     out.append({'n': [2, 2], 'shape': [2, 2], 'prop': [2, 2], 'os': 1, 'k': [5, 0], 'rep': 'wavefront-tilt', 'scales': 'axis'})
@@ -237,7 +248,11 @@ def run_repr(W, cfg):
     else:
         p_flat.tilt = [lt.Tilt(x=a[0], y=a[1]) for a in angles]
         w = lt.Wavefront(lam) * p_flat
-    o = lt.propagate_dft(w, pixelscale=du, shape=tuple(cfg['shape']), prop_shape=tuple(cfg['prop']), oversample=os)
+    om = None
+    if cfg.get('omask'):
+        om = rnp.zeros(S, dtype=int)
+        om[cfg['omask'][0]:cfg['omask'][1] + 1, cfg['omask'][2]:cfg['omask'][3] + 1] = 1
+    o = lt.propagate_dft(w, pixelscale=du, shape=tuple(cfg['shape']), prop_shape=tuple(cfg['prop']), oversample=os, mask=om)
     got = o.field
     if rep == 'segments':
         # per-segment windows differ only in the sub-sample part: same integer displacement, same window
@@ -247,6 +262,8 @@ def run_repr(W, cfg):
     wc = optics.centre_window(S[1], P[1])
 
     def inside(i, j):
+        if om is not None and not (cfg['omask'][0] <= i <= cfg['omask'][1] and cfg['omask'][2] <= j <= cfg['omask'][3]):
+            return False
         return wr[0] + kr <= i <= wr[1] + kr and wc[0] + kc <= j <= wc[1] + kc
 
     want = [[full[i, j] if inside(i, j) else 0 for j in range(S[1])] for i in range(S[0])]
